@@ -139,6 +139,12 @@ def observe(case):
                 args[j] = rng.choice([0, 1, 1, 2]) if j == 1 else rng.choice([0, 1, 2, 9])
         # variant 1: lazy argument + a dup-style view below; 2: eager argument + view; 3: lazy argument, same object below
         plain = [1, 2, 3, 4][: 2 + (seed // 4) % 3]
+        # (an index-like second argument inside the list, a value-like third argument that is not one of its items:
+        #  a writer then really writes, and what it writes shows -- detection must not hang on the draw above)
+        if len(args) > 1 and isinstance(args[1], int) and not isinstance(args[1], bool) and args[1] >= len(plain):
+            args[1] %= len(plain)
+        if len(args) > 2 and isinstance(args[2], int) and args[2] in plain:
+            args[2] = 9
         args[0] = list(plain) if variant == 2 else LazyList(iter(list(plain)))
         sentinels = sentinels + ([args[0]] if variant == 3 else [deep_copy(args[0])])
         alias_plain = plain
